@@ -286,6 +286,7 @@ where
     let rng = TestRng::from_seed(RngAlgorithm::ChaCha, &seed_bytes(args.seed, args.worker, 0));
     let mut runner = TestRunner::new_with_rng(cfg, rng);
     let failed = std::cell::Cell::new(false);
+    let first_failure: std::cell::RefCell<Option<Value>> = std::cell::RefCell::new(None);
     let rep_cell = std::cell::RefCell::new(&mut report);
     let result = runner.run(&strategy, |case| {
         let rep = run_case(&case);
@@ -305,6 +306,7 @@ where
         match r.absorb(def, &rep, &known) {
             Some(v) => {
                 failed.set(true);
+                *first_failure.borrow_mut() = Some(json!({"key": v.key, "msg": v.msg, "case": serde_json::to_value(&case).ok(), "trace": rep.sample}));
                 Err(TestCaseError::fail(v.key))
             }
             None => Ok(()),
@@ -329,6 +331,11 @@ where
                         msg: "shrunk case did not reproduce deterministically".into(),
                     });
                 let mut cj = serde_json::to_value(&case).unwrap();
+                if v.key.ends_with("/unstable") {
+                    if let (Some(o), Some(ff)) = (cj.as_object_mut(), first_failure.borrow_mut().take()) {
+                        o.insert("_first_failure".into(), ff);
+                    }
+                }
                 if let Some(s) = rep.sample {
                     if let Some(o) = cj.as_object_mut() {
                         o.insert("_trace".into(), s);
